@@ -60,11 +60,108 @@ def configs(tier):
 
 
 def scope(tier, seed):
-    return {'configurations': configs(tier), 'depth 99': 'search to closure (all reachable states)'}
+    return {'configurations': configs(tier), 'depth 99': 'search to closure (all reachable states)',
+            'crowd': {'sizes': 'every N in 1..%d' % CROWD_MAX[tier], 'kinds': CROWD_KINDS,
+                      'drop patterns': CROWD_DROPS, 'routes': ['text', 'ops']}}
 
 
 def plan(tier, seed):
-    return [['bfs', i] for i in range(len(configs(tier)))]
+    return [['bfs', i] for i in range(len(configs(tier)))] + \
+        [['crowd', kind, blk] for kind in CROWD_KINDS for blk in range(CROWD_BLOCKS)]
+
+
+# ---- crowded store: many diagrams alive at once ------------------------------------------------
+# The breadth-first search keeps at most three diagrams alive, so every parent set of the store is
+# short.  This family holds N diagrams alive together (N = every size up to CROWD_MAX), which makes
+# the parent sets of the terminals and of one shared inner node N long, applies one of the drop
+# patterns, re-creates every member by text and by operators, and demands the identical root for
+# every surviving member and the store invariant (one live node per (variable, low, high)).
+CROWD_MAX = {'quick': 160, 'thorough': 400}
+CROWD_BLOCKS = 8
+CROWD_KINDS = ['lit', 'neglit', 'and-last', 'or-last', 'xor-last']
+CROWD_DROPS = ['none', 'even', 'odd', 'first-half', 'all-but-last']
+
+
+def crowd_expr(kind, v, last):
+    return {'lit': v, 'neglit': '~' + v, 'and-last': '%s & %s' % (v, last),
+            'or-last': '%s | %s' % (v, last), 'xor-last': '(%s & ~%s) | (~%s & %s)' % (v, last, v, last)}[kind]
+
+
+def crowd_by_ops(kind, v, last, order):
+    a, b = OBDD(v, order), OBDD(last, order)
+    return {'lit': lambda: a, 'neglit': lambda: ~a, 'and-last': lambda: a & b,
+            'or-last': lambda: a | b, 'xor-last': lambda: a ^ b}[kind]()
+
+
+def crowd_case(kind, n, drop, route):
+    """One history: populate n, drop by pattern, re-create by route.  Returns None or a description."""
+    from pyModelChecking.BDD import Ordering
+    names = ['w%03d' % i for i in range(n + 1)]
+    order = Ordering(names)
+    last = names[-1]
+    live = [OBDD(crowd_expr(kind, v, last), order) for v in names[:-1]]
+    keep = {'none': lambda i: True, 'even': lambda i: i % 2 == 1, 'odd': lambda i: i % 2 == 0,
+            'first-half': lambda i: i >= n // 2, 'all-but-last': lambda i: i == n - 1}[drop]
+    for i in range(n):
+        if not keep(i):
+            live[i] = None
+    if drop != 'none':
+        gc.collect()
+    again = []
+    for i, v in enumerate(names[:-1]):
+        if route == 'text':
+            again.append(OBDD(crowd_expr(kind, v, last), order))
+        else:
+            again.append(crowd_by_ops(kind, v, last, order))
+    for i in range(n):
+        if live[i] is not None:
+            if not (live[i] == again[i]):
+                return 'member %d re-created by %s compares unequal to the live original' % (i, route)
+            if live[i].root is not again[i].root:
+                return 'member %d re-created by %s has another root node than the live original' % (i, route)
+    for i in range(n):
+        for j in (i + 1, n - 1):
+            if j < n and j != i and again[i] == again[j]:
+                return 'members %d and %d denote different functions but compare equal' % (i, j)
+    seen = {}
+    for nd in BDDNode.nodes():
+        if isinstance(nd, BDDNonTerminalNode):
+            key = (nd.var, id(nd.low), id(nd.high))
+            if key in seen:
+                return 'two live nodes with the same (variable, low, high): %s' % (nd.var,)
+            seen[key] = nd
+    return None
+
+
+def crowd(kind, blk, tier, acc):
+    gc.disable()
+    try:
+        n_cases = 0
+        for n in range(1, CROWD_MAX[tier] + 1):
+            if n % CROWD_BLOCKS != blk:
+                continue
+            if deadline_passed():
+                acc.capped()
+                break
+            for drop in CROWD_DROPS:
+                for route in ('text', 'ops'):
+                    gc.collect()
+                    r = call(crowd_case, kind, n, drop, route)
+                    n_cases += 1
+                    case = {'crowd': {'kind': kind, 'n': n, 'drop': drop, 'route': route}}
+                    if r[0] != 'ok':
+                        acc.violation('crowd-exception', case, None, r[1:])
+                    elif r[1]:
+                        acc.violation('crowd-invariant', case, 'canonical store', r[1])
+                    if acc.d['nviol'] >= 5:
+                        return
+        acc.ev(n_cases, n_cases)
+        acc.add('crowd_histories', n_cases)
+        acc.sample({'crowd': kind, 'block': blk, 'sizes': '1..%d step %d' % (CROWD_MAX[tier], CROWD_BLOCKS),
+                    'histories': n_cases})
+    finally:
+        gc.enable()
+        gc.set_threshold(700, 10, 10)
 
 
 def ops_for(nv, ns, foreign=False):
@@ -390,12 +487,23 @@ def bfs(cfg, acc):
 
 
 def run_shard(shard, tier, seed, acc):
+    if shard[0] == 'crowd':
+        return crowd(shard[1], shard[2], tier, acc)
     cfg = configs(tier)[shard[1]]
     bfs(cfg, acc)
 
 
 def replay(art):
     c = art['case']
+    if 'crowd' in c:
+        k = c['crowd']
+        gc.disable()
+        try:
+            gc.collect()
+            r = call(crowd_case, k['kind'], k['n'], k['drop'], k['route'])
+            return {'violates': r[0] != 'ok' or bool(r[1]), 'detail': r[1] if r[0] == 'ok' else r[1:]}
+        finally:
+            gc.enable()
     cfg = c['cfg']
     w = World(cfg)
     hist = tuple(tuple(o) for o in c['history'])
